@@ -122,3 +122,6 @@ func (s *Stream) Sum() [32]byte {
 	}
 	return out
 }
+
+// Compress is the compression function on one 64-byte block (exported for the corpus search tool).
+func Compress(v [8]uint32, block []byte) [8]uint32 { return cf(v, block) }
